@@ -75,8 +75,14 @@ def check(chk):
     ccsd = cl.func('ControlConnection.shutdown')
     w = _latch(chk, ccsd, 'self._is_shutdown', 'self._lock')
     s = src(ccsd)
-    closes = [n for n in body_walk(ccsd) if isinstance(n, ast.Call) and src(n.func) == 'self._connection.close']
-    chk.judge(len(closes) == 1 and holds(closes[0], ('self',), '_lock') and 'self._reconnection_handler.cancel()' in s, 'C45.cascade', ccsd,
+    # the receiver may be the attribute itself or a local that was loaded from it (resolved through single assignments)
+    from ..sem import resolve as _res45
+
+    def _calls_on(attr, meth):
+        return [n for n in body_walk(ccsd) if isinstance(n, ast.Call) and isinstance(n.func, ast.Attribute) and n.func.attr == meth and src(_res45(ccsd, n.func.value)) == attr]
+    closes = _calls_on('self._connection', 'close')
+    cancels = _calls_on('self._reconnection_handler', 'cancel')
+    chk.judge(len(closes) == 1 and holds(closes[0], ('self',), '_lock') and len(cancels) == 1 and holds(cancels[0], ('self',), '_reconnection_lock'), 'C45.cascade', ccsd,
               'reconnection handler cancelled; current connection closed inside the latch lock', 'control connection shutdown no longer closes its connection / cancels reconnection')
     # publish sites
     snc = cl.func('ControlConnection._set_new_connection')
